@@ -161,6 +161,13 @@ def run(tier, seed):
                 m = M0(); m.compute(np.array([lo]))          # leaves the model object itself holding a reference
             prev = None; xs = np.arange(lo, hi, 0.2 if tier == "quick" else 0.05)
             info = dict(model=name, reference_from=how, path="sweep %g..%g" % (lo, hi))
+            if how == "constructor":
+                first = m.update(np.array([lo]))
+                if m._reference is None:
+                    bad.append(dict(failed="a model given a reference at construction keeps it (the constructor dropped the reference= option)", case=info)); continue
+                ov0 = np.einsum("pi,pi->i", first._reference, m._reference)
+                if np.any(ov0 < 0):
+                    bad.append(dict(failed="a model given a reference at construction aligns its first set of states with it (overlaps %r)" % ov0.tolist(), case=info))
             worst = 1.0
             for xv in xs:
                 el = m.update(np.array([xv]), electronics=prev)
